@@ -16,7 +16,7 @@ TECHNIQUE = "model-based property testing: generated construction/run histories 
 RULE = ("Histories of 1..4 BADS instances (D 1..6, generated override subsets over every option name of both ini files with "
         "type-appropriate values for the ~30 options the constructor reads and unique sentinels for the rest; unknown names: "
         "random identifiers, case variants, MATLAB-style names, padded names) constructed and optionally run (tiny budget) in a "
-        "generated order in one process. Oracle: independent parser/evaluator of the two ini files (refdefaults) -> every "
+        "generated order in one process; some instances receive the options object of another live instance. Oracle: independent parser/evaluator of the two ini files (refdefaults) -> every "
         "overridden name holds the supplied value, every other name the reference default for the instance's own D with derived "
         "defaults using the user's value; unknown name => ValueError at construction; options of instance A unchanged by "
         "constructing/running B; caller's dict and x0/bounds arrays unchanged. Non-trivial = history with >= 2 instances of "
@@ -190,7 +190,10 @@ def histories(draw):
                                             "UncertaintyHandling", "maxfunevals", "max_fun_eval", "xyz_" + base, "display_"]))
             if unknown in names:
                 unknown = None
-        insts.append(dict(D=D, overrides=ov, unknown=unknown, no_options=draw(st.sampled_from([False] * 6 + [True])),
+        # sometimes the options passed are the options *object* of an instance constructed earlier (BADS(..., options=b1.options)):
+        # every name is then a user value, and the other instance's object is the caller's dict
+        reuse = draw(st.integers(0, i - 1)) if i >= 1 and draw(st.sampled_from([False] * 5 + [True])) else None
+        insts.append(dict(D=D, overrides=ov, unknown=unknown, reuse_from=reuse, no_options=draw(st.sampled_from([False] * 6 + [True])),
                           spelling=draw(st.sampled_from(["a1", "a2"])),
                           geom=draw(st.sampled_from(["inner", "inner", "tight", "x0_on_bound", "x0_outside_plausible", "near_margin", "log", "log_inner"]))))
     # operation order: construct each instance once, run some of them, in a generated interleaving
@@ -247,9 +250,18 @@ def run_history(case):
             if inst["unknown"]:
                 ov[inst["unknown"]] = 1
             user = None if (inst["no_options"] and not ov) else dict(ov)
+            src = inst.get("reuse_from")
+            if src is not None and src in live and not inst["unknown"]:
+                # the options object of another live instance, passed as it is
+                user = live[src][0].options
+                ov = {k: val for k, val in dict.items(user) if k != "useroptions"}
+                src_full_before = {k: copy.deepcopy(val) if not callable(val) else val for k, val in dict.items(user)}
+                labs.append("options-object-of-other-instance")
+            else:
+                src = None
             if user is not None and "max_fun_evals" not in user and "display" not in user:
                 pass
-            user_before = copy.deepcopy(user)
+            user_before = copy.deepcopy(user) if src is None else None
             shape = (D,) if inst["spelling"] == "a1" else (1, D)
             x0 = np.full(shape, 0.5)
             lb, ub = np.full(shape, -5.0), np.full(shape, 5.0)
@@ -289,7 +301,14 @@ def run_history(case):
                 v.append(viol("ctor:valid-options-rejected", f"overrides={ov}: {err['type']}: {err['msg']}", site=err["site"], exc_type=err["type"]))
                 continue
             # (e) caller-owned objects untouched
-            if not same(user, user_before):
+            if src is not None:
+                now = dict(dict.items(user))
+                ch = sorted(k for k in set(now) | set(src_full_before) if k not in now or k not in src_full_before or not same(now[k], src_full_before[k]))
+                if ch:
+                    v.append(viol("d:instance-options-changed-by-other", f"constructing instance {i} from the options object of instance {src} changed "
+                                  f"{ch} of that object" + (f" (useroptions: {len(src_full_before['useroptions'])} -> {len(now['useroptions'])} names)" if "useroptions" in ch else ""),
+                                  site="options-object"))
+            elif not same(user, user_before):
                 v.append(viol("e:caller-options-dict-mutated", f"before={user_before} after={user}"))
             for nm, a0, a1 in zip(("x0", "lb", "ub", "plb", "pub"), arrs_before, (x0, lb, ub, plb, pub)):
                 if not np.array_equal(a0, a1):
@@ -324,7 +343,7 @@ def run_history(case):
                 info = harness.exc_info(e)
                 labs.append("run-exception:" + info["type"])
             ran.add(i)
-            if not same(user, user_before):
+            if user_before is not None and not same(user, user_before):
                 v.append(viol("e:caller-options-dict-mutated", f"after optimize(): before={user_before} after={user}", site="optimize"))
             for nm, a0, a1 in zip(("x0", "lb", "ub", "plb", "pub"), arrs_before, arrs):
                 if not np.array_equal(a0, a1):
